@@ -234,6 +234,7 @@ func RunG(s *scn.Scenario, opt Options) *Result {
 			x.cache.check(-1)
 		}
 		x.recheckSolos()
+		x.verifyPristine(opt)
 	} else {
 		x.viol("deadlock", "deadlock", g.deadlock, -1)
 	}
